@@ -27,7 +27,7 @@ KINDS = ["cal", "map", "ticks", "nice", "dateitems", "export"]
 
 
 def bounds(tier, seed):
-    return {"zones": ["UTC"] + list(ZONES), "calendar_days": "2020-2021 every day x 2 tods" + (" + 1969-71, 1999-2004, 2018-25, 2037-38, 2100" if tier == "thorough" else ""),
+    return {"zones": ["UTC"] + list(ZONES), "calendar_days": "2020-2021 every day x 2 tods" + (" + every 4th year 1900-2100, 1969-71, 1999-2004, 2018-25, 2037-38" if tier == "thorough" else ""),
             "dst_minutes": "00:00-04:59 on %d transition dates" % len(DST_DAYS),
             "scale_cases": "C15 instants; C16/C14 reduced grids", "exports": "C07 datetime datasets n<=2, default and explicit options"}
 
@@ -87,7 +87,7 @@ def cal_instants(tier):
                 u = _shift_month(t, dm)
                 if u is not None:
                     out.append(("transmonth", u))
-    years = (2020, 2021) if tier == "quick" else tuple(range(1969, 1972)) + tuple(range(1999, 2005)) + tuple(range(2018, 2026)) + (2037, 2038, 2100)
+    years = (2020, 2021) if tier == "quick" else tuple(sorted(set(range(1900, 2101, 4)) | set(range(1969, 1972)) | set(range(1999, 2005)) | set(range(2018, 2026)) | {2037, 2038, 2100}))
     for y in years:
         for d in timegrid.all_days(y, y):
             out += [("day", d), ("day", d + timegrid.TOD1)]
